@@ -15,7 +15,11 @@ import (
 	"context"
 	"errors"
 	"fmt"
+	"bufio"
+	"encoding/json"
 	"os"
+	"os/exec"
+	"runtime"
 	"sort"
 	"strings"
 	"sync"
@@ -244,10 +248,44 @@ func body(sc Script, st *shared) {
 	rootCancel()
 }
 
-var watchdogStep = 250 * time.Millisecond
+// bubbleStalled: no goroutine of the process (other than the caller) is running, runnable or in a
+// system call.  The driver runs one bubble at a time, so this means that every goroutine of the
+// current bubble is blocked; a live bubble always has a runnable goroutine (when all are durably
+// blocked the runtime makes the bubble's root runnable to advance the clock).
+func bubbleStalled() bool {
+	buf := make([]byte, 1<<18)
+	for {
+		n := runtime.Stack(buf, true)
+		if n < len(buf) {
+			buf = buf[:n]
+			break
+		}
+		buf = make([]byte, 2*len(buf))
+	}
+	for i, block := range strings.Split(string(buf), "\n\n") {
+		if i == 0 {
+			continue // the caller
+		}
+		open, close := strings.IndexByte(block, '['), strings.IndexByte(block, ']')
+		if !strings.HasPrefix(block, "goroutine ") || open < 0 || close < open {
+			continue
+		}
+		state := block[open+1 : close]
+		if strings.HasPrefix(state, "running") || strings.HasPrefix(state, "runnable") ||
+			(strings.HasPrefix(state, "syscall") && !strings.Contains(block, "signal_recv")) {
+			return false
+		}
+	}
+	return true
+}
+
+var watchdogStep = 40 * time.Millisecond
 
 // runOnce runs one repetition of a script in its own bubble, under a real-time watchdog: a bubble
 // whose goroutines block on a sync.Mutex never comes to rest and synctest.Test never returns.
+// The run is declared stalled when no event of the script has happened for three watchdog steps
+// and two process-wide goroutine dumps in a row show nothing able to run (or, failing that, after
+// 10 s of real time without an event).
 func runOnce(t *testing.T, sc Script) Obs {
 	st := &shared{calls: make([]string, len(sc.Calls))}
 	for i := range st.calls {
@@ -270,7 +308,7 @@ func runOnce(t *testing.T, sc Script) Obs {
 		synctest.Test(t, func(*testing.T) { body(sc, st) })
 	}()
 	hung := false
-	last, idle := int64(-1), 0
+	last, idle, stalled := int64(-1), 0, 0
 wait:
 	for {
 		select {
@@ -278,13 +316,24 @@ wait:
 			break wait
 		case <-time.After(watchdogStep):
 			p := st.progress.Load()
-			if p == last {
-				idle++
-			} else {
-				last, idle = p, 0
+			if p != last {
+				last, idle, stalled = p, 0, 0
+				continue
 			}
-			if idle >= 8 { // 2 s of real time without any event of the script
-				hung = true
+			idle++
+			if idle >= 3 {
+				if bubbleStalled() {
+					stalled++
+				} else {
+					stalled = 0
+				}
+			}
+			if stalled >= 2 || idle >= 250 {
+				select {
+				case <-done: // finished in the meantime
+				default:
+					hung = true
+				}
 				break wait
 			}
 		}
@@ -538,9 +587,25 @@ func genPeriodic(r *Rand) (Script, []string) {
 	sc := Script{Kind: "periodic", Due: P, Dur: []int{0, 1, 2, 0}[r.Intn(4)], Ticks: r.Range(1, 4)}
 	var tags []string
 	life := sc.Ticks * (P + sc.Dur)
-	switch fam := r.Intn(8); fam {
+	switch fam := r.Intn(10); fam {
 	case 0:
 		tags = append(tags, "periodic:alone")
+	case 8: // a run request tied with a cancellation (of the job or of its context), around an instance's time or not
+		at := r.Range(1, P+1)
+		sc.Calls = append(sc.Calls, Call{At: at, Kind: "run"}, Call{At: at, Kind: []string{"cancel", "ctx", "cancel"}[r.Intn(3)]})
+		if r.Chance(1, 3) {
+			sc.Calls = append(sc.Calls, Call{At: at + 1, Kind: "run"})
+		}
+		tags = append(tags, "periodic:run-tied-with-cancel-or-ctx")
+	case 9: // an early run on every instance, then a plain instance
+		sc.Ticks = r.Range(3, 4)
+		sc.Dur = r.Range(0, 1)
+		at := 1
+		for i := 0; i < sc.Ticks-1; i++ {
+			sc.Calls = append(sc.Calls, Call{At: at, Kind: "run"})
+			at += sc.Dur + r.Range(1, P-1)
+		}
+		tags = append(tags, "periodic:early-run-each-instance")
 	case 1: // an early run, then the remaining instances
 		sc.Ticks = r.Range(3, 4)
 		sc.Calls = append(sc.Calls, Call{At: r.Range(1, P-1), Kind: "run"})
@@ -722,8 +787,90 @@ func tableTerm(ops []TOp) string {
 
 // ---------------------------------------------------------------------------------------------
 
+// One unit of work for the child process: an input with its repetitions and tags decided.
+type Work struct {
+	In   Input    `json:"in"`
+	Reps int      `json:"reps"`
+	Tags []string `json:"tags"`
+}
+
+// What the child reports for one unit of work (one JSON line).
+type Result struct {
+	Index     int      `json:"index"`
+	Observed  []Obs    `json:"observed,omitempty"`
+	TableOuts []string `json:"table_outs,omitempty"`
+	TableRuns []string `json:"table_runs,omitempty"`
+	TableNT   bool     `json:"table_nt,omitempty"`
+	Bubbles   int      `json:"bubbles"`
+	Hung      int      `json:"hung"`
+	Crashed   string   `json:"crashed,omitempty"` // parent only: the child died on this input
+}
+
+// child: runs the work items from VERIF_C02_FROM on, one JSON line per finished item.  A panic inside
+// one of the scheduler's own goroutines (a close of a closed channel ...) kills this process; the
+// parent then knows on which input.
+func child(t *testing.T) {
+	var work []Work
+	data, err := os.ReadFile(os.Getenv("VERIF_C02_WORK"))
+	if err != nil {
+		t.Fatal(err)
+	}
+	if err := json.Unmarshal(data, &work); err != nil {
+		t.Fatal(err)
+	}
+	out, err := os.OpenFile(os.Getenv("VERIF_C02_RESULTS"), os.O_APPEND|os.O_CREATE|os.O_WRONLY, 0o644)
+	if err != nil {
+		t.Fatal(err)
+	}
+	defer out.Close()
+	totalHung := 0
+	for i := EnvInt("VERIF_C02_FROM", 0); i < len(work); i++ {
+		w := work[i]
+		res := Result{Index: i}
+		if w.In.Script == nil {
+			res.TableOuts, res.TableRuns, res.TableNT = runTable(t, w.In.Table)
+			res.Bubbles = 1
+		} else {
+			distinct := map[string]*Obs{}
+			var order []string
+			for k := 0; k < w.Reps; k++ {
+				o := runOnce(t, *w.In.Script)
+				res.Bubbles++
+				if o.Hung {
+					res.Hung++
+					totalHung++
+				}
+				key := obsKey(o)
+				if e, ok := distinct[key]; ok {
+					e.Count++
+				} else {
+					o.Count = 1
+					distinct[key] = &o
+					order = append(order, key)
+				}
+				// a run that never comes to rest costs real time: a few per script, fewer once many were seen
+				if res.Hung >= 3 || (res.Hung >= 1 && totalHung > 150) {
+					break
+				}
+			}
+			sort.Strings(order)
+			for _, key := range order {
+				res.Observed = append(res.Observed, *distinct[key])
+			}
+		}
+		line, _ := json.Marshal(res)
+		if _, err := out.Write(append(line, '\n')); err != nil {
+			t.Fatal(err)
+		}
+	}
+}
+
 func TestC02(t *testing.T) {
 	deadlock.Opts.Disable = true // go-deadlock's timer pool lives outside the bubble
+	if os.Getenv("VERIF_C02_CHILD") != "" {
+		child(t)
+		return
+	}
 	col := NewCollector("C02", "Check.C02",
 		"one case = one timed script (one job, calls at given fake instants; repeated when events tie, every distinct outcome reported) "+
 			"or one sequential history over several names; non-trivial = a timed script in which the job's time or a run/cancel/ctx call "+
@@ -739,7 +886,6 @@ func TestC02(t *testing.T) {
 		tieReps *= 4
 	}
 	tieReps = EnvInt("VERIF_C02_REPS", tieReps)
-	hangBudget := EnvInt("VERIF_C02_HANG_SCRIPTS", map[bool]int{true: 20, false: 3}[tier == "thorough"])
 
 	var ins []Input
 	for _, in := range LoadInputs[Input]("C02") {
@@ -760,82 +906,123 @@ func TestC02(t *testing.T) {
 			ins = append(ins, Input{Table: genTable(r), Tags: []string{"table"}})
 		}
 	}
-	bubbles, hungObs := 0, 0
+	// decide repetitions and tags
+	work := make([]Work, 0, len(ins))
 	for _, in := range ins {
-		id := col.NextID()
 		if in.Script == nil {
-			outs, runs, nt := runTable(t, in.Table)
-			bubbles++
-			for _, op := range in.Table {
-				col.Count("table-op:" + op.Op)
-			}
-			term := Record("c_id", N(id), "c_body", App("Tabled", tableTerm(in.Table), List(outs), List(runs)))
-			col.Add(Case{Term: term, Key: tableTerm(in.Table), Nontrivial: nt, Tags: in.Tags,
-				Sample: map[string]any{"input": in, "observed": map[string]any{"outs": outs, "runs": runs}}})
+			work = append(work, Work{In: in, Reps: 1, Tags: in.Tags})
 			continue
 		}
 		sc := normalise(*in.Script)
 		in.Script = &sc
 		tags := append([]string(nil), in.Tags...)
 		reps := sc.Reps
-		isTied := tied(sc)
-		if reps <= 0 {
-			reps = freeReps
-			if isTied {
+		if tied(sc) {
+			tags = append(tags, "tied")
+			if reps <= 0 {
 				reps = tieReps
 			}
-		}
-		if isTied {
-			tags = append(tags, "tied")
 		} else {
 			tags = append(tags, "tie-free")
+			if reps <= 0 {
+				reps = freeReps
+			}
 		}
 		if hangProne(sc) {
 			tags = append(tags, "periodic:hang-prone")
-			if hangBudget <= 0 && sc.Reps <= 0 {
-				// replaced by a tie-free variant: the run requests one millisecond apart
-				seen := map[int]int{}
-				for i, c := range sc.Calls {
-					if c.Kind == "run" || c.Kind == "runif" {
-						sc.Calls[i].At = c.At + seen[c.At]
-						seen[c.At]++
-					}
+		}
+		work = append(work, Work{In: in, Reps: reps, Tags: tags})
+	}
+	// run them in a child process, restarted after the input on which it dies
+	dir, err := os.MkdirTemp("", "c02")
+	if err != nil {
+		t.Fatal(err)
+	}
+	defer os.RemoveAll(dir)
+	workFile, resFile := dir+"/work.json", dir+"/results.jsonl"
+	data, _ := json.Marshal(work)
+	if err := os.WriteFile(workFile, data, 0o644); err != nil {
+		t.Fatal(err)
+	}
+	results := make([]Result, 0, len(work))
+	crashes := 0
+	for len(results) < len(work) {
+		os.Remove(resFile)
+		cmd := exec.Command(os.Args[0], "-test.run", "^TestC02$", "-test.count=1", "-test.timeout", "3000s")
+		cmd.Env = append(os.Environ(), "VERIF_C02_CHILD=1", "VERIF_C02_WORK="+workFile, "VERIF_C02_RESULTS="+resFile,
+			fmt.Sprintf("VERIF_C02_FROM=%d", len(results)))
+		outb, runErr := cmd.CombinedOutput()
+		if f, err := os.Open(resFile); err == nil {
+			scan := bufio.NewScanner(f)
+			scan.Buffer(make([]byte, 1<<20), 1<<26)
+			for scan.Scan() {
+				var r Result
+				if json.Unmarshal(scan.Bytes(), &r) == nil && r.Index == len(results) {
+					results = append(results, r)
 				}
-				sc = normalise(sc)
-				tags = append(tags, "periodic:hang-prone-spread")
-			} else {
-				hangBudget--
-				if reps > 20 && sc.Reps <= 0 {
-					reps = 20
-				}
+			}
+			f.Close()
+		}
+		if len(results) < len(work) {
+			// the child died on input number len(results)
+			crashes++
+			msg := string(outb)
+			if i := strings.Index(msg, "panic:"); i >= 0 {
+				msg = msg[i:]
+			} else if i := strings.Index(msg, "fatal error:"); i >= 0 {
+				msg = msg[i:]
+			}
+			if len(msg) > 300 {
+				msg = msg[:300]
+			}
+			if runErr == nil {
+				msg = "child stopped early: " + msg
+			}
+			results = append(results, Result{Index: len(results), Crashed: msg})
+			if crashes > 40 {
+				t.Fatalf("the harness process died on more than 40 inputs; last: %s", msg)
 			}
 		}
-		distinct := map[string]*Obs{}
-		var order []string
-		for k := 0; k < reps; k++ {
-			o := runOnce(t, sc)
-			bubbles++
-			if o.Hung {
-				hungObs++
+	}
+	bubbles, hungObs := 0, 0
+	for i, w := range work {
+		res := results[i]
+		id := col.NextID()
+		bubbles += res.Bubbles
+		hungObs += res.Hung
+		in := w.In
+		if in.Script == nil {
+			outs, runs := res.TableOuts, res.TableRuns
+			if res.Crashed != "" {
+				col.Note(fmt.Sprintf("case %d: the process died (%s)", id, res.Crashed))
+				col.Count("process-died")
 			}
-			key := obsKey(o)
-			if e, ok := distinct[key]; ok {
-				e.Count++
-			} else {
-				o.Count = 1
-				distinct[key] = &o
-				order = append(order, key)
+			for _, op := range in.Table {
+				col.Count("table-op:" + op.Op)
 			}
+			term := Record("c_id", N(id), "c_body", App("Tabled", tableTerm(in.Table), List(outs), List(runs)))
+			col.Add(Case{Term: term, Key: tableTerm(in.Table), Nontrivial: res.TableNT, Tags: w.Tags,
+				Sample: map[string]any{"input": in, "observed": map[string]any{"outs": outs, "runs": runs, "process_died": res.Crashed}}})
+			continue
 		}
-		sort.Strings(order)
-		obsTerms := make([]string, 0, len(order))
-		observed := make([]Obs, 0, len(order))
-		for _, key := range order {
-			obsTerms = append(obsTerms, obsTerm(*distinct[key]))
-			observed = append(observed, *distinct[key])
+		sc := *in.Script
+		observed := res.Observed
+		if res.Crashed != "" {
+			// the scheduler panicked in one of its own goroutines: reported as a panic outcome
+			calls := make([]string, len(sc.Calls))
+			for k := range calls {
+				calls[k] = "Hung"
+			}
+			observed = []Obs{{Calls: calls, Starts: []int{}, Reuse: "Ret Nil", Panic: true, Hung: true, Count: 1}}
+			col.Note(fmt.Sprintf("case %d: the process died (%s)", id, res.Crashed))
+			col.Count("process-died")
+		}
+		obsTerms := make([]string, 0, len(observed))
+		for _, o := range observed {
+			obsTerms = append(obsTerms, obsTerm(o))
 		}
 		col.Count("script:" + sc.Kind)
-		col.Count(fmt.Sprintf("distinct-outcomes:%d", len(order)))
+		col.Count(fmt.Sprintf("distinct-outcomes:%d", len(observed)))
 		col.Count(fmt.Sprintf("calls:%d", len(sc.Calls)))
 		for _, c := range sc.Calls {
 			col.Count("call:" + c.Kind)
@@ -850,10 +1037,11 @@ func TestC02(t *testing.T) {
 		}
 		nt := len(sc.Calls) > 0 || sc.Due <= sc.End
 		term := Record("c_id", N(id), "c_body", App("Timed", scriptTerm(sc), List(obsTerms)))
-		col.Add(Case{Term: term, Key: scriptTerm(sc), Nontrivial: nt, Tags: tags,
-			Sample: map[string]any{"input": in, "observed": observed}})
+		col.Add(Case{Term: term, Key: scriptTerm(sc), Nontrivial: nt, Tags: w.Tags,
+			Sample: map[string]any{"input": in, "observed": observed, "process_died": res.Crashed}})
 	}
-	col.Note(fmt.Sprintf("bubbles run: %d (tied scripts repeated %d times, tie-free %d times); observations that never came to rest: %d", bubbles, tieReps, freeReps, hungObs))
+	col.Note(fmt.Sprintf("bubbles run: %d (tied scripts repeated %d times, tie-free %d times); observations that never came to rest: %d; inputs on which the process died: %d",
+		bubbles, tieReps, freeReps, hungObs, crashes))
 	if err := col.Flush(); err != nil {
 		t.Fatal(err)
 	}
